@@ -181,7 +181,8 @@ class YAMLFormatter(GraphtageFormatter):
         if obj == '':
             return
         s = StringIO()
-        dump(obj, stream=s, Dumper=Dumper)
+        # never let the dumper fold a long scalar over several lines: the formatter prints it in place
+        dump(obj, stream=s, Dumper=Dumper, width=2 ** 31 - 1)
         ret = s.getvalue()
         if isinstance(obj, str) and obj.strip().startswith('#'):
             if ret.startswith("'"):
